@@ -94,7 +94,8 @@ func vpC05Probe(tx *corazawaf.Transaction) vpC05Out {
 	tx.AddGetRequestArgument("a", "1")
 	tx.AddGetRequestArgument("b", "2")
 	tx.ProcessRequestHeaders()
-	_, _, _ = tx.WriteRequestBody([]byte("xyz"))
+	// one byte under the limit: any byte count carried over from the predecessor tips it over
+	_, _, _ = tx.WriteRequestBody([]byte("xyz=123"))
 	_, _ = tx.ProcessRequestBody()
 	if r, err := tx.RequestBodyReader(); err == nil {
 		b, _ := io.ReadAll(r)
@@ -102,7 +103,7 @@ func vpC05Probe(tx *corazawaf.Transaction) vpC05Out {
 	}
 	tx.AddResponseHeader("Content-Type", "text/plain")
 	tx.ProcessResponseHeaders(200, "HTTP/1.1")
-	_, _, _ = tx.WriteResponseBody([]byte("resp"))
+	_, _, _ = tx.WriteResponseBody([]byte("respons"))
 	_, _ = tx.ProcessResponseBody()
 	tx.ProcessLogging()
 	o.seen = vpSeen
